@@ -71,7 +71,7 @@ func TestC13(t *testing.T) {
 		crashPart(t, r, tmp)
 	}
 	r.Require("payloads_checked", "restarts_from_payload", "fileclient_checks", "flush_after_lookup", "flush_after_poll", "flush_on_shutdown",
-		"fuzz_certainly_valid", "fuzz_certainly_invalid", "fuzz_grey", "cache_write_failures", "parked_write_cases", "crash_points", "io_errors_injected")
+		"fuzz_certainly_valid", "fuzz_certainly_invalid", "fuzz_grey", "cache_write_failures", "parked_write_cases", "crash_points", "io_errors_injected", "steps_with_stale_pinned_secrets")
 	r.Rule("histories: initial fetch, lookups, polls with/without service changes (some with failing cache writes), shutdown; after every step the last payload must be a complete document of exactly the known names with their current version+bytes, a new store started from it with a dead service must serve the same, and NewFileClient must agree on non-empty secrets. Fuzz: documents mutated around the valid format (bit flips, truncations, token splices, nulls, wrong types, duplicate/empty keys, case variants, nesting, invalid UTF-8). Crash part: every system call of FileCache.Write as kill point and as error point. Distinct = (step kind, flush expected?), fuzz (mutation, class, sources used), crash (syscall, fault)")
 }
 
@@ -104,6 +104,7 @@ func historyCase(t *testing.T, r *evid.Run, idx int, tmp string) {
 		r.Violation(key, idx, fmt.Sprintf("case %d: %s", idx, msg), d)
 	}
 	svc := fakesvc.New()
+	installed := map[string][]byte{} // what the store has installed, as far as the history implies
 	all := []string{"svc/a", "svc/b", "x/one", "x/two", "x/empty"}
 	ver := map[string]uint32{}
 	set := func(nme string) {
@@ -118,6 +119,13 @@ func historyCase(t *testing.T, r *evid.Run, idx int, tmp string) {
 		set(nme)
 	}
 	declared := all[:1+rng.IntN(2)]
+	// In half of the histories an expiry age is configured and the (injected) clock jumps far ahead between
+	// steps: looked-up secrets have handles, so they must never drop out of the store, nor out of its cache.
+	expiry := time.Duration(0)
+	if rng.IntN(2) == 0 {
+		expiry = time.Hour
+	}
+	now := int64(1_700_000_000)
 	failWrites := false
 	cache := &fakesvc.MonCache{WriteErr: func(int) error {
 		if failWrites {
@@ -126,10 +134,21 @@ func historyCase(t *testing.T, r *evid.Run, idx int, tmp string) {
 		return nil
 	}}
 	st, err := setec.NewStore(context.Background(), setec.StoreConfig{Client: svc, Secrets: append([]string(nil), declared...), AllowLookup: true, Cache: cache,
-		PollTicker: idleTicker{make(chan time.Time)}, Logf: func(string, ...any) {}})
+		PollTicker: idleTicker{make(chan time.Time)}, ExpiryAge: expiry, TimeNow: func() time.Time { return time.Unix(now, 0) }, Logf: func(string, ...any) {}})
 	if err != nil {
 		fail("newstore-fails", err.Error(), nil)
 		return
+	}
+	held := map[string]setec.Secret{} // handles obtained without being read
+	current := func(nme string) []byte {
+		if expiry > 0 {
+			v, _ := svc.Active(nme) // in this mode every poll succeeds, so what the store holds is what the service had at the last install
+			if iv, ok := installed[nme]; ok {
+				return iv
+			}
+			return v.Bytes
+		}
+		return st.Secret(nme).Get()
 	}
 	closed := false
 	defer func() {
@@ -140,6 +159,10 @@ func historyCase(t *testing.T, r *evid.Run, idx int, tmp string) {
 	known := map[string]bool{}
 	for _, d := range declared {
 		known[d] = true
+	}
+	for _, d := range declared {
+		v, _ := svc.Active(d)
+		installed[d] = v.Bytes
 	}
 	// verify compares the last payload with what the store serves, restarts from it, and reads it through a FileClient.
 	verify := func(step string, mustHaveFlushed bool, writesBefore int) bool {
@@ -175,7 +198,7 @@ func historyCase(t *testing.T, r *evid.Run, idx int, tmp string) {
 				fail("payload-wrong-names", fmt.Sprintf("%s: %q is known to the store but missing from the payload", step, nme), map[string]any{"payload": string(last)})
 				return false
 			}
-			cur := st.Secret(nme).Get()
+			cur := current(nme)
 			if !bytes.Equal(cur, e.Secret.Value) {
 				fail("payload-stale-value", fmt.Sprintf("%s: store serves %q for %q, payload holds %q", step, cur, nme, e.Secret.Value), nil)
 				return false
@@ -254,9 +277,14 @@ func historyCase(t *testing.T, r *evid.Run, idx int, tmp string) {
 				continue
 			}
 			nme := cand[rng.IntN(len(cand))]
-			if _, err := st.LookupSecret(context.Background(), nme); err != nil {
+			h, err := st.LookupSecret(context.Background(), nme)
+			if err != nil {
 				fail("lookup-fails", err.Error(), nil)
 				return
+			}
+			held[nme] = h
+			if v, ok := svc.Active(nme); ok {
+				installed[nme] = v.Bytes
 			}
 			known[nme] = true
 			r.Count("flush_after_lookup", 1)
@@ -272,8 +300,15 @@ func historyCase(t *testing.T, r *evid.Run, idx int, tmp string) {
 					changed = true
 				}
 			}
-			failWrites = rng.IntN(6) == 0
+			failWrites = rng.IntN(6) == 0 && expiry == 0
 			err := st.Refresh(context.Background())
+			if err == nil {
+				for nme := range known {
+					if v, ok := svc.Active(nme); ok {
+						installed[nme] = v.Bytes
+					}
+				}
+			}
 			if failWrites {
 				// the write failed: the cache is allowed to be behind; a later successful flush must catch up
 				r.Count("cache_write_failures", 1)
@@ -285,6 +320,11 @@ func historyCase(t *testing.T, r *evid.Run, idx int, tmp string) {
 				if err := st.Refresh(context.Background()); err != nil {
 					fail("poll-fails", err.Error(), nil)
 					return
+				}
+				for nme := range known {
+					if v, ok := svc.Active(nme); ok {
+						installed[nme] = v.Bytes
+					}
 				}
 				changed = true
 			} else if err != nil {
@@ -308,9 +348,15 @@ func historyCase(t *testing.T, r *evid.Run, idx int, tmp string) {
 				return
 			}
 		case 5: // read (changes last access only)
-			for nme := range known {
-				st.Secret(nme).Get()
+			if expiry == 0 {
+				for nme := range known {
+					st.Secret(nme).Get()
+				}
 			}
+		}
+		if expiry > 0 {
+			now += int64(2*3600 + rng.IntN(100000)) // everything that is not read goes stale
+			r.Count("steps_with_stale_pinned_secrets", 1)
 		}
 	}
 	wb := cache.NumWrites()
@@ -320,7 +366,7 @@ func historyCase(t *testing.T, r *evid.Run, idx int, tmp string) {
 	}
 	finalVals := map[string][]byte{}
 	for _, nme := range names {
-		finalVals[nme] = st.Secret(nme).Get()
+		finalVals[nme] = current(nme)
 	}
 	st.Close()
 	closed = true
@@ -844,6 +890,33 @@ func fileCacheModes(r *evid.Run, tmp string) {
 		st, _ := os.Stat(d)
 		if st.Mode().Perm()&0o077 != 0 {
 			r.Violation("filecache-dir-mode", -1, fmt.Sprintf("cache directory %s has mode %o with umask 0, want owner-only", d, st.Mode().Perm()), nil)
+		}
+	}
+	// a cache file that already exists with wider permissions (restored from a backup, created by hand)
+	for _, mode := range []os.FileMode{0o644, 0o640, 0o666, 0o604} {
+		for _, same := range []bool{false, true} {
+			p := filepath.Join(dir, fmt.Sprintf("pre-%o-%t.json", mode, same))
+			os.WriteFile(p, []byte(`{"old":1}`), mode)
+			os.Chmod(p, mode)
+			pc, err := setec.NewFileCache(p)
+			if err != nil {
+				r.Violation("filecache-create", -1, err.Error(), nil)
+				continue
+			}
+			doc := []byte(`{"new":2}`)
+			if same {
+				doc = []byte(`{"old":1}`)
+			}
+			r.Eval(1)
+			if err := pc.Write(doc); err != nil {
+				r.Violation("filecache-write", -1, err.Error(), nil)
+				continue
+			}
+			if st, _ := os.Stat(p); st.Mode().Perm() != 0o600 {
+				r.Violation("filecache-mode", -1, fmt.Sprintf("a cache file that existed with mode %o has mode %o after Write (same content: %t), want 0600", mode, st.Mode().Perm(), same), nil)
+			}
+			os.Remove(p)
+			r.Distinct(fmt.Sprintf("filecache pre-existing mode=%o same-content=%t", mode, same))
 		}
 	}
 	ents, _ := os.ReadDir(dir)
